@@ -84,6 +84,10 @@ static void aead_aes256gcm_all(Ctx &c) {
     c.rc(crypto_aead_aes256gcm_decrypt_detached(c.out(ml), nullptr, ct3, ml, mac, ad, al, n, k));
     c.rc(crypto_aead_aes256gcm_decrypt_detached_afternm(c.out(ml), nullptr, ct4, ml, mac4, ad, al, n, st));
     c.rc(crypto_aead_aes256gcm_decrypt(nullptr, nullptr, nullptr, ct, ml + 16, ad, al, n, k));
+    // verify-only (m == NULL) through every other form: in the detached forms nothing follows the ciphertext in memory
+    c.rc(crypto_aead_aes256gcm_decrypt_afternm(nullptr, nullptr, nullptr, ct2, ml + 16, ad, al, n, st));
+    c.rc(crypto_aead_aes256gcm_decrypt_detached(nullptr, nullptr, ct3, ml, mac, ad, al, n, k));
+    c.rc(crypto_aead_aes256gcm_decrypt_detached_afternm(nullptr, nullptr, ct4, ml, mac4, ad, al, n, st));
 }
 // ------------------------------------------------------------------------------------------------------------ MACs / hashes
 #define AUTH_ENTRY(P, TB, ST)                                                                                                                    \
